@@ -15,12 +15,13 @@ SHARED = {
     "C07": [("C07.R12", "more", "tables_hold_rereadable_values", "the applicable-code set can be read by every later call_next"), ("C07.R11", "c08", "r1_self_references_found", "recurse / call_next symbols are found in globals and closure cells")],
     "C08": [("C08.R7", "c08", "r7_recurse_call_shapes", "every recurse call shape is handled or left alone"), ("C08.R8", "c09", "r7_own_code_object", "the recompiled code object is the method's own")],
     "C10": [("C10.R8", "c05", "r1_derived_tables_flushed", "no dispatcher outlives the registration that made it"), ("C10.R9", "c04", "r1_store_key_is_lookup_key", "stores are filed under the key looked up")],
-    "C11": [("C11.R8", "c10", "r2", "a rank with any dependent member is wrapped; keyword entries count"), ("C11.R9", "more", "hash_reads_what_eq_compares", "equality of value types covers bound and values")],
+    "C11": [("C11.R10", "more", "literal_bound_covers_every_value", "a Literal's bound covers the types of all its values (interpreted)"), ("C11.R8", "c10", "r2", "a rank with any dependent member is wrapped; keyword entries count"), ("C11.R9", "more", "hash_reads_what_eq_compares", "equality of value types covers bound and values")],
     "C12": [("C12.R10", "c15", "r4_commutative_combinators", "commutative combinators compare without order")],
     "C13": [("C13.R8", "c14", "r2", "one key function on every path"), ("C13.R9", "c14", "r4_positions", "key function chosen for the parameter's real position"), ("C13.R10", "c15", "r2_normaliser_front", "string annotations are evaluated first and then normalised")],
-    "C14": [("C14.R9", "c15", "r2_normaliser_front", "string annotations are evaluated first and then normalised")],
-    "C15": [("C15.R7", "more", "annotations_pass_the_normaliser", "every annotation read passes the normaliser"), ("C15.R8", "c12", "r4_tables", "decision tables of the Order-valued code (union order is member-order free)")],
+    "C14": [("C14.R10", "more", "build_state_read_after_ensuring_the_build", "build state is read after the build was ensured"), ("C14.R9", "c15", "r2_normaliser_front", "string annotations are evaluated first and then normalised")],
+    "C15": [("C15.R9", "more", "literal_bound_covers_every_value", "a Literal's bound covers the types of all its values (interpreted)"), ("C15.R7", "more", "annotations_pass_the_normaliser", "every annotation read passes the normaliser"), ("C15.R8", "c12", "r4_tables", "decision tables of the Order-valued code (union order is member-order free)")],
     "C18": [("C18.R7", "more", "removal_is_exhaustive", "unregistering removes every signature of the function")],
+    "C17": [("C17.R8", "more", "entry_point_replaced_only_on_unnamed_or_fresh", "the entry point is replaced only on unnamed or fresh function objects")],
     "C19": [("C19.R9", "c07", "r3", "the continuation branch resolves the bare key first and consults what it stored")],
     "C05": [("C05.R5", "c18", "r4_flag_never_unset", "the built flag is not lowered while the generated entry point stays live")],
     "C20": [("C20.R9", "c20", "r9_dependent_dispatcher_tests_values_only", "the dependent dispatcher does not re-test plain classes"), ("C20.R7", "c07", "r3", "the continuation branch reads the cached bare key"), ("C20.R8", "c07", "r5_next_keys_like_call_next", "next() keys like the entry point")],
